@@ -39,7 +39,14 @@ def run_units(units, fn, nproc=None, unit_timeout=120, on_result=None):
                 pr.join(5)
                 done.append(key)
             elif not pr.is_alive():
-                results[key] = ('err', f'worker exited with code {pr.exitcode}')
+                # the worker may have sent its result and exited between the two tests above: look once more
+                if conn.poll(0.2):
+                    try:
+                        results[key] = conn.recv()
+                    except EOFError:
+                        results[key] = ('err', 'worker died without a result')
+                else:
+                    results[key] = ('err', f'worker exited with code {pr.exitcode}')
                 done.append(key)
             elif time.time() - t0 > unit_timeout:
                 pr.kill()
